@@ -47,11 +47,10 @@ def k_contact(tags):
 @predicate("K-abstol")
 @for_props("C12", "C01", "C05", "C14")
 def k_abstol(tags):
-    """Absolute tolerances: a curved operand in a configuration smaller than d_min, or
-    coordinates above c_max."""
-    if tags.get("curved") and tags.get("diameter") is not None and tags["diameter"] < tags.get("d_min", 0.5):
-        return True
-    if tags.get("maxcoord") is not None and tags["maxcoord"] > tags.get("c_max", 1e6):
+    """Absolute tolerances (1e-6 crossing distance / Newton determinant cut-off / box margin /
+    parameter filters, 1e-9 point equality): a curved operand in a configuration whose
+    diameter is below 0.5 length units."""
+    if tags.get("curved") and tags.get("diameter") is not None and tags["diameter"] < 0.5:
         return True
     return False
 
